@@ -559,7 +559,6 @@ class ArgumentParser(ParserDeprecations, ActionsContainer, ArgumentLinking, argp
                         env_val = [env_val]
                 prev_cfg = cfg_base if cfg_base and action.dest not in cfg else cfg
                 cfg[action.dest] = self._check_value_key(action, env_val, action.dest, prev_cfg)
-        self._apply_actions(cfg)
         return cfg
 
     def parse_env(
